@@ -96,8 +96,9 @@ def compile_ready(it):
         ids = [i.rust() for a in it.attrs if a.kind == 'repr' for i in a.repr_[1]]
         if 'C' in ids and len(ids) > 1 and not data:
             return False
-        if len([a for a in it.attrs if a.kind == 'repr']) > 1:
-            return False
+        ints = [i for i in ids if i != 'C']
+        if len(ints) > 1 or ids.count('C') > 1 and ints:
+            return False      # conflicting representation hints are rustc's error
     elif any(a.kind == 'repr' for a in it.attrs):
         return False
     src = it.rust()
